@@ -386,6 +386,7 @@ PROPS["C17"] = {
     "tests": [
         {"name": "TestProp", "quick": {"shards": 8, "checks": 5000}, "thorough": {"shards": 16, "checks": 30000}},
         {"name": "TestLarge", "rapid": False, "quick": {"shards": 1}, "thorough": {"shards": 1}},
+        {"name": "TestSizes", "rapid": False, "quick": {"shards": 8}, "thorough": {"shards": 8}},
         {"name": "TestSymbolTable", "quick": {"shards": 4, "checks": 5000}, "thorough": {"shards": 8, "checks": 50000}},
     ],
     "rule": "cases: generated programs of the compiler's subset (block depth up to 4, risky indices), oversized programs, symbol-table "
